@@ -6,7 +6,7 @@ from scen import payload
 
 FILES = ['theories/Base.v', 'theories/gen/Codec.v', 'theories/gen/Tp21Gen.v', 'theories/gen/CaGen.v', 'theories/CodecGlue.v',
          'theories/Model21.v', 'theories/Replay21.v', 'proofs/CodecProofs.v', 'proofs/Flat.v', 'proofs/Tp21Resp.v', 'proofs/Tp21Orig.v', 'proofs/Tp21Seg.v', 'proofs/FilterProofs.v', 'proofs/TimeoutProofs.v', 'proofs/RobustProofs.v',
-         'theories/gen/Tp22Gen.v', 'theories/Model22.v', 'theories/Replay22.v', 'proofs/MpgProofs.v', 'proofs/PoolProofs.v', 'proofs/RobustProofs22.v']
+         'theories/gen/Tp22Gen.v', 'theories/Model22.v', 'theories/Replay22.v', 'proofs/MpgProofs.v', 'proofs/PoolProofs.v', 'proofs/RobustProofs22.v', 'proofs/TimeoutProofs22.v']
 GAPS = [0, 0, 1000, 1000, 300000, 800000, 1300000, 3100000]
 LOCAL_E, LOCAL_CA, PEER, FOREIGN = 0x20, 0x21, 0x10, 0x55
 TICK = 100000
